@@ -39,7 +39,7 @@ UNSIGNED = ('usize', 'u8', 'u16', 'u32', 'u64', 'u128')
 
 
 def policy():
-    return T.Policy(inline=True, max_depth=10, inline_core=True, subst_types=True, pure_ref_values=True,
+    return T.Policy(inline=True, max_depth=10, inline_core=True, subst_types=True, pure_ref_values=True, typed_floats=True, record_ref_values=True,
                     pure_extra=('core::slice::<impl [T]>::len', 'core::slice::<impl [T]>::is_empty'))
 
 
@@ -63,11 +63,17 @@ def tt(t):
 
 
 _CLOSURE_TY = re.compile(r'\{closure@[^}]*\}')
+_FNITEM_TY = re.compile(r'^(for<[^>]*> )?(unsafe )?(extern "[^"]*" )?fn\(.*\)( -> .*)? \{.*\}$')
 
 
 def norm(t):
     if isinstance(t, str):
-        return _CLOSURE_TY.sub('{closure}', t) if '{closure@' in t else t
+        # the type of a callable passed as an argument says nothing beyond its body, which is compared separately
+        if '{closure@' in t:
+            t = _CLOSURE_TY.sub('{callable}', t)
+        if _FNITEM_TY.match(t):
+            return '{callable}'
+        return t
     if not isinstance(t, tuple):
         return t
     if not t:
@@ -76,11 +82,13 @@ def norm(t):
     if h == 'op' and len(t) == 4:
         op = OPNAME.get(t[1], t[1])
         a, b = norm(t[2]), norm(t[3])
-        if op in ('Gt', 'Ge'):
-            op, a, b = CMP_FLIP[op], b, a
-        if op in COMMUTATIVE and repr(b) < repr(a):
-            a, b = b, a
-        return ('op', op, a, b)
+        fl = op.endswith('.f')
+        base = op[:-2] if fl else op
+        if base in ('Gt', 'Ge'):
+            base, a, b = CMP_FLIP[base], b, a       # a > b  ==  b < a  (also for NaN: both false)
+        if base in COMMUTATIVE and repr(b) < repr(a):
+            a, b = b, a                              # IEEE addition / multiplication are commutative as well
+        return ('op', base + ('.f' if fl else ''), a, b)
     if h == 'un' and len(t) == 3 and t[1] == 'Not':
         x = norm(t[2])
         if x[0] == 'un' and x[1] == 'Not':
@@ -189,12 +197,42 @@ def assert_redundant(ev, conds):
     return False
 
 
-def expand_closures(facts, p, t, table, depth):
+_FP = {}
+
+
+def _strip_lines(x):
+    if isinstance(x, dict):
+        return {k: _strip_lines(v) for k, v in x.items() if k not in ('l', 'span', 'x')}
+    if isinstance(x, list):
+        if x and x[0] == '=' and len(x) == 4:
+            return ['=', _strip_lines(x[1]), _strip_lines(x[2])]
+        return [_strip_lines(v) for v in x]
+    return x
+
+
+def callee_fingerprint(facts, callee, root=None):
+    """an opaque call to a function whose body is in the workspace (not inlined: recursion, depth) is the same effect only
+    if that body is the same: fingerprint of its MIR without line numbers"""
+    if not callee:
+        return None
+    res = callee.get('res') or {}
+    b = facts.by_hash.get(res.get('hash')) or (facts.by_hash.get(callee.get('hash')) if callee.get('trait') is None else None)
+    if b is None:
+        return None
+    if root is not None and b['hash'] == root:
+        return 'self'       # recursion into the function under comparison: co-inductive
+    key = (id(facts), b['hash'])
+    if key not in _FP:
+        _FP[key] = hashlib.sha256(json.dumps(_strip_lines(b['blocks']), sort_keys=True).encode()).hexdigest()[:12]
+    return _FP[key]
+
+
+def expand_closures(facts, p, t, table, depth, evmap=None):
     """replace closure values and function items used as values by references ('#clo', id) into `table`, which holds
     the canonical summaries of their bodies: closures are evaluated in the store of the path that built them (captured
     variables resolved), explicit arguments stay symbolic.  Each distinct value is summarised once per root path."""
     if isinstance(t, dict):
-        return {k: expand_closures(facts, p, v, table, depth) for k, v in t.items()}
+        return {k: expand_closures(facts, p, v, table, depth, evmap) for k, v in t.items()}
     if not isinstance(t, tuple) or not t:
         return t
     is_clo = t[0] == 'agg' and len(t) == 3 and isinstance(t[1], tuple) and t[1] and t[1][0] == 'closure'
@@ -203,7 +241,10 @@ def expand_closures(facts, p, t, table, depth):
         h = t[1][2] if is_clo else t[2]
         body = facts.by_hash.get(h)
         if body is not None:
-            key = repr(t)
+            # a closure denotes its body *in the environment it captured*: two occurrences of the same closure expression on
+            # paths where the captured locals hold different values are different values
+            env = sorted(((loc, v) for loc, v in p['store'].items() if loc[0][0] == 'L'), key=repr) if is_clo else ()
+            key = repr(t) + '|' + hashlib.sha256(repr(env).encode()).hexdigest()
             if key in table['ids']:
                 return ('#clo', table['ids'][key])
             cid = len(table['ids'])
@@ -211,6 +252,7 @@ def expand_closures(facts, p, t, table, depth):
             table['paths'].append(None)
             eng = T.Engine(facts, policy(), max_paths=120)
             store = dict(p['store'])
+            tys = None
             if is_clo:
                 envloc = (('L', ('env', cid), 0), ())
                 store[envloc] = t
@@ -219,49 +261,68 @@ def expand_closures(facts, p, t, table, depth):
                 args = [a0] + [('carg', i) for i in range(1, body['argc'])]
             else:
                 args = [('carg', i) for i in range(1, body['argc'] + 1)]
+                gens = [g for g in (body.get('generics') or []) if not g.startswith("'")]
+                if len(gens) == len(t[3]):
+                    tys = dict(zip(gens, t[3]))
             try:
-                cps = eng.summarize(body, args, store=store, frame=1000 + cid)
-                table['paths'][cid] = [canon_path(facts, cp, table, depth + 1) for cp in cps]
+                outer_events = p['events']
+                cps = eng.summarize(body, args, store=store, frame=1000 + cid, events=outer_events, tys=tys)
+                for cp in cps:
+                    # only what the callable itself writes
+                    cp['writes'] = {loc: v for loc, v in cp['writes'].items() if store.get(loc) != v}
+                table['paths'][cid] = [canon_path(facts, cp, table, depth + 1, skip=len(outer_events), outer=evmap) for cp in cps]
             except (T.TooComplex, RecursionError, KeyError, IndexError, TypeError, AssertionError):
                 table['paths'][cid] = [{'conds': [], 'events': [['unsummarisable', key]], 'writes': [], 'ret': None, 'end': 'return'}]
             return ('#clo', cid)
-    return tuple(expand_closures(facts, p, x, table, depth) for x in t)
+    return tuple(expand_closures(facts, p, x, table, depth, evmap) for x in t)
 
 
-def canon_path(facts, p, table, depth=0):
-    """canonical, json-able form of one engine path; closure bodies go to `table`"""
+def canon_path(facts, p, table, depth=0, skip=0, outer=None):
+    """canonical, json-able form of one engine path; closure bodies go to `table`.  The first `skip` events belong to the
+    path that built the callable being summarised (numbered by `outer`): they are not part of its behaviour, but terms
+    may refer to them."""
     p = dict(p)
-    p['events'] = [dict(e, args=expand_closures(facts, p, tuple(e['args']), table, depth)) if e.get('kind') == 'call' else e for e in p['events']]
-    p['writes'] = {loc: expand_closures(facts, p, v, table, depth) for loc, v in p['writes'].items()}
-    p['ret'] = expand_closures(facts, p, p['ret'], table, depth) if p['ret'] is not None else None
-    p['conds'] = [(expand_closures(facts, p, c[0], table, depth),) + tuple(c[1:]) for c in p['conds']]
-    conds = []
+    conds0 = []
     for c in p['conds']:
         d, v = norm(c[0]), c[1]
         if v[0] == 'bool' and d[0] == 'un' and d[1] == 'Not':
             d, v = d[2], ('bool', not v[1])
-        conds.append((d, v))
+        conds0.append((d, v))
     evmap = {}
     kept = []
     for k, e in enumerate(p['events']):
         kind = e['kind']
-        if kind == 'assert' and assert_redundant({'cond': norm(e['cond'])}, conds):
+        if k < skip:
+            evmap[k] = ('outer', (outer or {}).get(k, ('dropped', k)))
+            continue
+        if kind == 'assert' and assert_redundant({'cond': norm(e['cond'])}, conds0):
             continue
         if kind == 'call' and e.get('pure'):
             continue        # a pure call is a value (an `app` term), not an effect
         evmap[k] = len(kept)
         kept.append(e)
+    kept = [dict(e, args=expand_closures(facts, p, tuple(e['args']), table, depth, evmap)) if e.get('kind') == 'call' else e for e in kept]
+    p['writes'] = {loc: expand_closures(facts, p, v, table, depth, evmap) for loc, v in p['writes'].items()}
+    p['ret'] = expand_closures(facts, p, p['ret'], table, depth, evmap) if p['ret'] is not None else None
+    conds = []
+    for c in p['conds']:
+        d, v = norm(expand_closures(facts, p, c[0], table, depth, evmap)), c[1]
+        if v[0] == 'bool' and d[0] == 'un' and d[1] == 'Not':
+            d, v = d[2], ('bool', not v[1])
+        conds.append((d, v))
     nm = Namer(evmap)
     evs = []
     for e in kept:
         kind = e['kind']
         if kind == 'call':
+            rv = tuple(sorted((i, nm.rn(norm(expand_closures(facts, p, v, table, depth, evmap)))) for i, v in (e.get('refvals') or {}).items()))
             evs.append(('call', e.get('rpath') or e['path'], nm.rn(norm(tuple(e['args']))), nm.rn(norm(e.get('f'))) if e.get('f') else None,
-                        tuple(e['callee']['args']) if e.get('callee') else None))
+                        tuple(norm(a) for a in e['callee']['args']) if e.get('callee') else None, rv, callee_fingerprint(facts, e.get('callee'), table.get('root'))))
         elif kind == 'assert':
             evs.append(('assert', nm.rn(norm(e['cond'])), e['expected'], e['msg']))
         elif kind == 'loop-enter':
-            evs.append(('loop-enter', nm.rn(norm(tuple(sorted((str(k2), v2) for k2, v2 in e.get('before', {}).items()))))))
+            evs.append(('loop-enter', nm.rn(norm(tuple(sorted((str(k2), v2) for k2, v2 in e.get('before', {}).items())))),
+                        nm.rn(norm(tuple(sorted(((loc, v2) for loc, v2 in (e.get('heap_before') or {}).items()), key=repr))))))
         elif kind == 'loop-back':
             evs.append(('loop-back', nm.rn(norm(tuple(sorted((str(k2), v2) for k2, v2 in e.get('carried', {}).items()))))))
         else:
@@ -330,7 +391,7 @@ def summarize(facts, fn, max_paths=300):
         return None
     ctx = hashlib.sha256()
     ctx.update(type_context(facts, body).encode())
-    table = {'ids': {}, 'paths': []}
+    table = {'ids': {}, 'paths': [], 'root': body['hash']}
     cps = [canon_path(facts, p, table) for p in paths]
     return {'ctx': ctx.hexdigest()[:16], 'paths': cps, 'closures': table['paths']}
 
@@ -356,19 +417,23 @@ def jointly_unsat(ca, cb):
     for c, s in notin.items():
         if c in val and val[c][0] == 'int' and val[c][1] in s:
             return True
-    # 2. sign sets for comparisons of the same ordered pair of terms
+    # 2. sign sets for comparisons of the same ordered pair of terms (floats: a fourth outcome, unordered)
     sign = {}
+    TRUE = {'Lt': {'lt'}, 'Le': {'lt', 'eq'}, 'Gt': {'gt'}, 'Ge': {'gt', 'eq'}, 'Eq': {'eq'}, 'Ne': {'lt', 'gt', 'un'}}
     for c, v in lits:
-        if v[0] != 'bool' or c[0] != 'op' or c[1] not in CMP_NEG:
+        if v[0] != 'bool' or c[0] != 'op':
             continue
-        op, x, y = c[1], c[2], c[3]
-        if not v[1]:
-            op = CMP_NEG[op]
+        fl = c[1].endswith('.f')
+        op = c[1][:-2] if fl else c[1]
+        if op not in TRUE:
+            continue
+        x, y = c[2], c[3]
         if repr(y) < repr(x):
             op, x, y = CMP_FLIP[op], y, x
-        allowed = {'Lt': {'lt'}, 'Le': {'lt', 'eq'}, 'Gt': {'gt'}, 'Ge': {'gt', 'eq'}, 'Eq': {'eq'}, 'Ne': {'lt', 'gt'}}[op]
-        key = (x, y)
-        sign[key] = sign.get(key, {'lt', 'eq', 'gt'}) & allowed
+        uni = {'lt', 'eq', 'gt', 'un'} if fl else {'lt', 'eq', 'gt'}
+        allowed = (TRUE[op] & uni) if v[1] else (uni - TRUE[op])
+        key = (x, y, fl)
+        sign[key] = sign.get(key, uni) & allowed
         if not sign[key]:
             return True
     # 3. intervals against constants
